@@ -6,6 +6,7 @@ use std::collections::BTreeSet;
 pub mod c07;
 pub mod c08;
 pub mod c09;
+pub mod c10;
 pub mod c11;
 pub mod c19;
 pub mod c20;
@@ -86,6 +87,7 @@ pub fn registry() -> Vec<PropInfo> {
     v.extend(c07::props());
     v.extend(c08::props());
     v.extend(c09::props());
+    v.extend(c10::props());
     v.extend(c11::props());
     v.extend(c24::props());
     v.extend(c25::props());
